@@ -14,6 +14,7 @@ JUDGE specs/crypto/BlobSigTrace.tla (BlobSigContract)
 import json
 import os
 import random
+import re
 import sys
 
 sys.path.insert(0, os.path.join(os.path.dirname(os.path.abspath(__file__)), "..", "lib"))
@@ -39,9 +40,11 @@ def predicted(wf, same, rel):
 def run(ctx):
     sd = "specs/crypto"
     rnd = random.Random(ctx.seed)
-    ctx.tlc(sd, "BlobSig", "MC_BlobSig.cfg", timeout=900,
+    mc = ctx.tlc(sd, "BlobSig", "MC_BlobSig.cfg", timeout=900,
             label="exhaustive: verification steps refine the contract; unforgeability; keepstore never probes before verifying",
             extra=["-coverage", "1"] if ctx.thorough else [])
+    if ctx.thorough:   # -coverage 1: actions of the model that were never taken would make the check vacuous
+        ctx.extra["vacuous_actions"] = re.findall(r"^<(\w+) line [^>]*>: 0:0", mc.out, re.M)
     gen, r = ctx.gen(sd, "BlobSig", "Gen_BlobSig.cfg", timeout=900, label="case emission")
     cases = {}
     for g in gen:
